@@ -190,4 +190,15 @@ PROPS = {
                         "blocking matchers (a receive loop parked on a full channel) are covered by the micro model only"],
         "trusted_base": ["testing/synctest; verif hooks in nclient4/nclient6; modelled, not verified: receiveLoop, send, cancel of both clients"],
     },
+    "C14": {
+        "coq_files": BASE + ["V4/Model.v", "V6/Model.v", "Server/", "Props/C14.v"],
+        "harness": "sync",
+        "rule": "server4 / server6 behind WithConn(scripted PacketConn) under synctest: sequences of 0..200 reads mixing valid messages of every type (relay nesting for v6), undecodable ones and "
+                "empty reads, senders with nil / 0.0.0.0 / IPv4 / IPv6 / IPv4-zero-in-16 / non-UDP addresses, an optional read error (Close) at any position; handlers block until all later "
+                "reads have happened and then snapshot their message (detects a reused read buffer); invocations (peer, re-encoded message, in datagram order) and the exit flag vs the model; "
+                "direct oracle for the invocation count, exit rule and broadcast rewrite; non-trivial = distinct sequence",
+        "assumptions": ["handler goroutines are ordered by the position the generator put into each datagram's transaction id",
+                        "real parallelism of handlers is outside the model (thorough tier under -race)"],
+        "trusted_base": ["testing/synctest; the scripted PacketConn; modelled, not verified: server4.Serve, server6.Serve"],
+    },
 }
